@@ -117,6 +117,7 @@ pub fn scenarios(seed: u64) -> Vec<Scenario> {
         v.push(sc("C11", Tier::Quick, &format!("c11.then.increase.{}", p.tag()), dp, 400, 120, t_fund(pc.clone(), 2)));
         v.push(sc("C11", Tier::Quick, &format!("c11.then.reverse.{}", p.tag()), dp, 600, 150, t_fund(pc.clone(), 3)));
         v.push(sc("C11", Tier::Quick, &format!("c11.then.pclose.{}", p.tag()), dp, 400, 120, t_fund_pclose(pc.clone())));
+        v.push(sc("C11", Tier::Quick, &format!("c11.then.open.fund-again.close.{}", p.tag()), "a position opened after one settlement, a second settlement with its own symbolic oracle price (the premiums may cancel exactly), then both positions are closed", 600, 150, t_fund(pc.clone(), 7)));
         v.push(sc("C11", Tier::Quick, &format!("c11.then.deposit-liq.{}", p.tag()), dp, 400, 120, t_fund(pc.clone(), 4)));
         v.push(sc("C11", Tier::Quick, &format!("c11.two-vamms.{}", p.tag()), "two vAMMs: a settlement on one leaves the other's cumulative fraction and positions alone", 600, 150, t_two_vamms(pc.clone())));
         v.push(sc("C11", Tier::Quick, &format!("c11.then.liquidation.full.{}", p.tag()), dp, 600, 150, t_fund_liq(pc.clone(), false)));
